@@ -719,6 +719,9 @@ pub fn generate(seed: u64, fault_free: bool) -> FlowOut {
         ..RunCfg::default()
     };
     let mut g = Gen::new(seed, cfg);
+    if !fault_free && pre.chance(1, 3) {
+        g.cancel_den = 4 + pre.below(8) as u32;
+    }
     let mut fg = FlowGen {
         rng: Rng::new(seed ^ 0x5eed),
         next: 0,
